@@ -113,6 +113,16 @@ def handle (j : Lean.Json) : Except String Lean.Json := do
     | .error e => return Lean.Json.mkObj [("ok", .bool false), ("why", .str e)]
     | .ok tv => return Lean.Json.mkObj [("ok", .bool true), ("dump", enc (dump cfg true true tv)),
         ("tree", encTree (typeTree cfg tv)), ("conforms", .bool (conforms cfg t v))]
+  | "enums" =>
+    -- complete_enum_value on a list of [current, allowed, case_sensitive] queries
+    match v with
+    | .arr qs =>
+      let outs := qs.map (fun q => match q with
+        | .arr [.str cur, .arr allowed, .bool cs] =>
+          Lean.Json.arr ((completeEnum cur (allowed.filterMap (fun a => match a with | .str x => some x | _ => none)) cs).map Lean.Json.str).toArray
+        | _ => Lean.Json.null)
+      return Lean.Json.mkObj [("ok", .bool true), ("enums", .arr outs.toArray)]
+    | _ => throw "enums: list expected"
   | "build" =>
     -- a `create_*` helper of Gen/Builders on keyword arguments (wire values)
     let name ← j.getObjValAs? String "name"
